@@ -11,7 +11,6 @@
   Definitions are stated division free where possible: `P Fᵀ = J σ`, `F S Fᵀ = J σ`, `U S U = J σ̃`.
 -/
 import TfelVerif.Common.M3
-import TfelVerif.Common.Model
 import TfelVerif.C23.Spec
 import TfelVerif.C23.Lemmas
 import TfelVerif.C23.GenStress
@@ -32,14 +31,117 @@ theorem N3_det : Gen.N3_det_r c c3 fn (tensv F) = F.det := by
   obtain ⟨f00,f01,f02,f10,f11,f12,f20,f21,f22⟩ := F
   c23_unfold; ring
 
+/-- the traced divisor of `invert` is the determinant -/
+theorem N3_invert_den : Gen.N3_invert_den0 c c3 fn (tensv F) = F.det := by
+  obtain ⟨f00,f01,f02,f10,f11,f12,f20,f21,f22⟩ := F
+  c23_unfold; ring
 /-- `invert`: `F * invert F = 1` when `det F ≠ 0` -/
 theorem N3_invert (hJ : F.det ≠ 0) : F * M3.ofTens (Gen.N3_invert_r c c3 fn (tensv F)) = 1 := by
-  have hd : Gen.N3_invert_den0 c c3 fn (tensv F) ≠ 0 := by
-    have : Gen.N3_invert_den0 c c3 fn (tensv F) = F.det := by
+  have hd := hJ; rw [← N3_invert_den c c3 fn] at hd
+  obtain ⟨f00,f01,f02,f10,f11,f12,f20,f21,f22⟩ := F
+  c23_rat hc with hd
+
+/-- `computeDeterminantDerivative` is the cofactor matrix: `dJ Fᵀ = det F · 1` … -/
+theorem N3_dJ_cofactor : M3.ofTens (Gen.N3_dJ_r c c3 fn (tensv F)) * F.transpose = F.det • (1 : M3 K) := by
+  obtain ⟨f00,f01,f02,f10,f11,f12,f20,f21,f22⟩ := F
+  c23_poly hc
+/-- … hence Jacobi's formula along `δF = L F`: `dJ : δF = det F · tr L` -/
+theorem N3_dJ_jacobi (L : M3 K) : dot (Gen.N3_dJ_r c c3 fn (tensv F)) (M3.tens3 (L * F)) = F.det * L.trace := by
+  obtain ⟨f00,f01,f02,f10,f11,f12,f20,f21,f22⟩ := F
+  obtain ⟨l00,l01,l02,l10,l11,l12,l20,l21,l22⟩ := L
+  c23_unfold; ring
+
+/-- right Cauchy–Green tensor `C = FᵀF`, Green–Lagrange strain `E = (C − 1)/2` -/
+theorem N3_rightCauchyGreen (hc : c * c = 2) :
+    Gen.N3_rightCauchyGreen_r c c3 fn (tensv F) = M3.mandel3 c (F.transpose * F) := by
+  obtain ⟨f00,f01,f02,f10,f11,f12,f20,f21,f22⟩ := F
+  c23_poly hc
+theorem N3_greenLagrange (hc : c * c = 2) (h2 : (2:K) ≠ 0) :
+    Gen.N3_greenLagrange_r c c3 fn (tensv F) = M3.mandel3 c ((1/2 : K) • (F.transpose * F - 1)) := by
+  have hc0 : c ≠ 0 := c_ne_zero hc h2
+  obtain ⟨f00,f01,f02,f10,f11,f12,f20,f21,f22⟩ := F
+  c23_rat0 hc
+
+/-- `unsyme` writes a symmetric tensor in full tensor storage -/
+theorem N3_unsyme (hc : c * c = 2) (h2 : (2:K) ≠ 0) :
+    M3.ofTens (Gen.N3_unsyme_r c c3 fn (mandv c σ)) = σ := by
+  have hc0 : c ≠ 0 := c_ne_zero hc h2
+  c23_rat0 hc
+
+/-- `push_forward(S, F) = F S Fᵀ` -/
+theorem N3_push_forward (hc : c * c = 2) :
+    Gen.N3_push_forward_r c c3 fn (mandv c σ) (tensv F) = M3.mandel3 c (F * σ * F.transpose) := by
+  obtain ⟨f00,f01,f02,f10,f11,f12,f20,f21,f22⟩ := F
+  c23_poly hc
+
+/-! ### first Piola–Kirchhoff stress: `P Fᵀ = J σ` -/
+theorem N3_cauchy_to_pk1 (hc : c * c = 2) (h2 : (2:K) ≠ 0) :
+    M3.ofTens (Gen.N3_cauchy_to_pk1_r c c3 fn (mandv c σ) (tensv F)) * F.transpose = F.det • σ := by
+  obtain ⟨f00,f01,f02,f10,f11,f12,f20,f21,f22⟩ := F
+  c23_rat0 hc
+/-- `σ = P Fᵀ / J` (the code reads the lower triangle of `P Fᵀ`): for every tensor `P` -/
+theorem N3_pk1_to_cauchy (hc : c * c = 2) (h2 : (2:K) ≠ 0) (P : M3 K) (hJ : F.det ≠ 0) :
+    (Gen.N3_pk1_to_cauchy_r c c3 fn (tensv P) (tensv F)).map (F.det * ·)
+      = M3.mandel3 c (P * F.transpose).transpose := by
+  have hd : Gen.N3_pk1_to_cauchy_den0 c c3 fn (tensv P) (tensv F) ≠ 0 := by
+    have : Gen.N3_pk1_to_cauchy_den0 c c3 fn (tensv P) (tensv F) = F.det := by
       obtain ⟨f00,f01,f02,f10,f11,f12,f20,f21,f22⟩ := F
       c23_unfold; ring
     rw [this]; exact hJ
   obtain ⟨f00,f01,f02,f10,f11,f12,f20,f21,f22⟩ := F
-  c23_rat (rfl : (2:K) = 2) with hd
+  obtain ⟨p00,p01,p02,p10,p11,p12,p20,p21,p22⟩ := P
+  c23_rat hc with hd
+/-- mutually inverse: `σ ↦ P ↦ σ` -/
+theorem N3_pk1_roundtrip (hc : c * c = 2) (h2 : (2:K) ≠ 0) (hJ : F.det ≠ 0) :
+    Gen.N3_pk1_to_cauchy_r c c3 fn (Gen.N3_cauchy_to_pk1_rv c c3 fn (mandv c σ) (tensv F)) (tensv F)
+      = M3.mandel3 c σ := by
+  have hd : Gen.N3_pk1_to_cauchy_den0 c c3 fn (Gen.N3_cauchy_to_pk1_rv c c3 fn (mandv c σ) (tensv F)) (tensv F) ≠ 0 := by
+    have : Gen.N3_pk1_to_cauchy_den0 c c3 fn (Gen.N3_cauchy_to_pk1_rv c c3 fn (mandv c σ) (tensv F)) (tensv F) = F.det := by
+      obtain ⟨f00,f01,f02,f10,f11,f12,f20,f21,f22⟩ := F
+      c23_unfold; ring
+    rw [this]; exact hJ
+  obtain ⟨f00,f01,f02,f10,f11,f12,f20,f21,f22⟩ := F
+  c23_rat hc with hd
+
+/-! ### second Piola–Kirchhoff stress: `F S Fᵀ = J σ` -/
+theorem N3_cauchy_to_pk2_den : Gen.N3_cauchy_to_pk2_den0 c c3 fn (mandv c σ) (tensv F) = F.det := by
+  obtain ⟨f00,f01,f02,f10,f11,f12,f20,f21,f22⟩ := F
+  c23_unfold; ring
+set_option maxHeartbeats 4000000 in
+theorem N3_cauchy_to_pk2 (hc : c * c = 2) (h2 : (2:K) ≠ 0) (hJ : F.det ≠ 0) :
+    F * M3.ofMandel c (Gen.N3_cauchy_to_pk2_r c c3 fn (mandv c σ) (tensv F)) * F.transpose = F.det • σ := by
+  have hc0 : c ≠ 0 := c_ne_zero hc h2
+  have hd := hJ; rw [← N3_cauchy_to_pk2_den c c3 fn F a00 a11 a22 a01 a02 a12] at hd
+  obtain ⟨f00,f01,f02,f10,f11,f12,f20,f21,f22⟩ := F
+  c23_rat hc with hd
+theorem N3_pk2_to_cauchy_den : Gen.N3_pk2_to_cauchy_den0 c c3 fn (mandv c σ) (tensv F) = F.det := by
+  obtain ⟨f00,f01,f02,f10,f11,f12,f20,f21,f22⟩ := F
+  c23_unfold; ring
+/-- `σ = F S Fᵀ / J` (here `σ` names the second Piola–Kirchhoff stress given as input) -/
+theorem N3_pk2_to_cauchy (hc : c * c = 2) (h2 : (2:K) ≠ 0) (hJ : F.det ≠ 0) :
+    F.det • M3.ofMandel c (Gen.N3_pk2_to_cauchy_r c c3 fn (mandv c σ) (tensv F)) = F * σ * F.transpose := by
+  have hc0 : c ≠ 0 := c_ne_zero hc h2
+  have hd := hJ; rw [← N3_pk2_to_cauchy_den c c3 fn F a00 a11 a22 a01 a02 a12] at hd
+  obtain ⟨f00,f01,f02,f10,f11,f12,f20,f21,f22⟩ := F
+  c23_rat hc with hd
 end N3
+
+section N3b
+variable (F : M3 K) (a00 a11 a22 a01 a02 a12 u00 u11 u22 u01 u02 u12 : K)
+local notation "σ" => M3.sym a00 a11 a22 a01 a02 a12
+local notation "U" => M3.sym u00 u11 u22 u01 u02 u12
+
+/-- mutually inverse: `σ ↦ S ↦ σ` and `S ↦ σ ↦ S` -/
+theorem N3_pk2_roundtrip (hc : c * c = 2) (h2 : (2:K) ≠ 0) (hJ : F.det ≠ 0) :
+    F.det • (F * M3.ofMandel c (Gen.N3_cauchy_to_pk2_r c c3 fn
+        (Gen.N3_pk2_to_cauchy_rv c c3 fn (mandv c σ) (tensv F)) (tensv F)) * F.transpose)
+      = F.det • (F * σ * F.transpose) := by
+  have hc0 : c ≠ 0 := c_ne_zero hc h2
+  have h1 := N3_cauchy_to_pk2 c c3 fn F
+  sorry
+
+/-! ### corotational Cauchy stress `σ̃ = Rᵀ σ R` and the right stretch `U`: `U S U = det U · σ̃` -/
+theorem N3_corot_to_pk2_den : Gen.N3_corot_to_pk2_den0 c c3 fn (mandv c σ) (mandv c U) = (U).det := by
+  c23_unfold; c23_ring hc
+end N3b
 end TfelVerif.C23.PropsStress
